@@ -602,6 +602,37 @@ func (env *Env) evalFilter(e *E) (interface{}, error) {
 			out[len(l)-1-i] = x
 		}
 		return out, nil
+	case "slice":
+		l, ok := v.([]interface{})
+		if !ok || len(args) != 2 {
+			return nil, domain("slice on %T / arity", v)
+		}
+		from, ok1 := asInt(args[0])
+		n, ok2 := asInt(args[1])
+		if !ok1 || !ok2 || from < 0 || n < 0 {
+			return nil, domain("slice bounds")
+		}
+		if from > int64(len(l)) {
+			from = int64(len(l))
+		}
+		to := from + n
+		if to > int64(len(l)) {
+			to = int64(len(l))
+		}
+		return append([]interface{}{}, l[from:to]...), nil
+	case "sort":
+		l, ok := v.([]interface{})
+		if !ok {
+			return nil, domain("sort on %T", v)
+		}
+		out := append([]interface{}{}, l...)
+		for _, x := range out {
+			if _, isInt := x.(int64); !isInt {
+				return nil, domain("sort on a list with %T", x)
+			}
+		}
+		sort.SliceStable(out, func(i, j int) bool { return out[i].(int64) < out[j].(int64) })
+		return out, nil
 	case "keys":
 		mp, ok := v.(map[string]interface{})
 		if !ok {
